@@ -77,6 +77,11 @@ pub trait Property: Sync {
     fn isolated(&self) -> bool {
         true
     }
+    /// how many more times a shrunk failing case is executed when it passes on re-execution: properties whose
+    /// failures depend on a thread schedule (C18) fail only sometimes for the same case
+    fn rerun_attempts(&self) -> u32 {
+        0
+    }
     fn strategy(&self, tier: Tier) -> BoxedStrategy<Self::Case>;
     /// number of generated cases for the tier (summed over lanes)
     fn cases(&self, tier: Tier) -> u32;
@@ -661,7 +666,13 @@ pub fn check<P: Property>(p: &P, tier: Tier, seed: u64) -> i32 {
                         Ok(()) => {}
                         Err(TestError::Fail(_why, case)) => {
                             // re-run the minimal case to record its own failure text
-                            let r = ex.borrow_mut().exec(&case);
+                            let mut r = ex.borrow_mut().exec(&case);
+                            for _ in 0..p.rerun_attempts() {
+                                if !matches!(&r, Exec::Done(o) if o.fail.is_none()) {
+                                    break;
+                                }
+                                r = ex.borrow_mut().exec(&case);
+                            }
                             let fl = match r {
                                 Exec::Done(o) => o.fail.unwrap_or(Failure { sig: "flaky:minimal-case-passed-on-rerun".into(), msg: "the shrunk case did not fail when re-run".into() }),
                                 Exec::Hang => Failure { sig: "hang".into(), msg: "minimal case hung".into() },
@@ -798,7 +809,14 @@ pub fn replay<P: Property>(p: &P, file: &Path) -> i32 {
         }
     };
     let mut ex = Executor::new(p, 300, Tier::Thorough);
-    match ex.exec(&case) {
+    let mut r = ex.exec(&case);
+    for _ in 0..p.rerun_attempts() {
+        if !matches!(&r, Exec::Done(o) if o.fail.is_none()) {
+            break;
+        }
+        r = ex.exec(&case);
+    }
+    match r {
         Exec::Hang => {
             println!("INCONCLUSIVE: hang");
             2
